@@ -41,6 +41,23 @@ def getters(mod):
     return out
 
 
+def century_rule(kind, v, yy):
+    """century designated by the number under the Danish / Norwegian rules (None: none designated)"""
+    if kind == 'cpr':
+        c7 = int(v[6])
+        return 1900 if c7 <= 3 else ((2000 if yy <= 36 else 1900) if c7 in (4, 9) else (2000 if yy <= 57 else 1800))
+    iii = int(v[6:9])
+    if iii < 500:
+        return 1900
+    if iii < 750 and yy >= 54:
+        return 1800
+    if yy < 40:
+        return 2000
+    if iii >= 900:
+        return 1900
+    return None
+
+
 def native_failure(modname, gname, x, opts, today):
     """-> description if the getter misbehaves on validate(x) on the real code"""
     rv = call_real(modname + ':validate', [x], opts, today)
@@ -65,6 +82,14 @@ def native_failure(modname, gname, x, opts, today):
                     return 'get_birth_date(%r) = %s does not agree with the century marker in the month digits' % (v, d)
                 if rule[5] == 'egn' and d.year - d.year % 100 != {1: 1800, 2: 2000}.get(mm // 20, 1900):
                     return 'get_birth_date(%r) = %s does not agree with the century marker in the month digits' % (v, d)
+                if isinstance(rule[5], dict) and v[rule[5]['at']] in rule[5]['map'] and d.year - d.year % 100 != rule[5]['map'][v[rule[5]['at']]]:
+                    return 'get_birth_date(%r) = %s does not agree with the century marker %r of the number' % (v, d, v[rule[5]['at']])
+                if rule[5] == 'emso' and d.year != (2000 if yy < 800 else 1000) + yy:
+                    return 'get_birth_date(%r) = %s does not agree with the three-digit year of the number' % (v, d)
+                if rule[5] in ('cpr', 'fnr'):
+                    want = century_rule(rule[5], v, yy)
+                    if want is not None and d.year - d.year % 100 != want:
+                        return 'get_birth_date(%r) = %s does not agree with the century rule of the format (%d)' % (v, d, want)
             except ValueError:
                 pass
         for other, attr in (('get_birth_year', 'year'), ('get_birth_month', 'month')):
@@ -112,6 +137,29 @@ def checker_factory(modname):
                         elif rule[5] == 'egn':
                             k = mm / 20 if is_sym(mm) else mm // 20
                             extra['the century marker'] = (r.y - r.y % 100, z3.If(k == 1, 1800, z3.If(k == 2, 2000, 1900)) if is_sym(k) else {1: 1800, 2: 2000}.get(k, 1900))
+                        elif isinstance(rule[5], dict):
+                            mk = chars[rule[5]['at']]
+                            cent = r.y - r.y % 100
+                            if isinstance(mk, int):
+                                want = rule[5]['map'].get(chr(mk))
+                                if want is not None:
+                                    extra['the century marker'] = (cent, want)
+                            else:
+                                e_ = cent
+                                for ch_, c100 in sorted(rule[5]['map'].items()):
+                                    e_ = z3.If(mk == ord(ch_), c100, e_)
+                                extra['the century marker'] = (cent, e_)
+                        elif rule[5] in ('cpr', 'fnr'):
+                            cent = r.y - r.y % 100
+                            if rule[5] == 'cpr':
+                                c7 = I.to_int(FixedStr(chars[6:7]))
+                                want = z3.If(c7 <= 3, 1900, z3.If(z3.Or(c7 == 4, c7 == 9), z3.If(yy <= 36, 2000, 1900), z3.If(yy <= 57, 2000, 1800)))
+                            else:
+                                iii = I.to_int(FixedStr(chars[6:9]))
+                                want = z3.If(iii < 500, 1900, z3.If(z3.And(iii < 750, yy >= 54), 1800, z3.If(yy < 40, 2000, z3.If(iii >= 900, 1900, cent))))
+                            extra['the century rule'] = (cent, want)
+                        elif rule[5] == 'emso':
+                            extra['the three-digit year'] = (r.y, (z3.If(yy < 800, 2000, 1000) + yy) if is_sym(yy) else (2000 if yy < 800 else 1000) + yy)
                     for other, attr in (('get_birth_year', 'y'), ('get_birth_month', 'm')):
                         if other in by:
                             try:
@@ -222,10 +270,10 @@ def check(prop, tier, args):
     mods = [m.__name__ for m in front.number_modules() if getters(m)]
     if args.modules:
         mods = [m for m in mods if m in args.modules]
-    units = accept.accepting_units(modules=mods if args.modules else None)
+    units = accept.accepting_units(modules=mods)
     pairs = [(m, g) for m in mods for g, _ in getters(importlib.import_module(m))]
     items = [(m, sorted({n for o, n in units.get(m, []) if n != 'long'}), tier) for m in mods if m in units]
-    res = accept.run_modules(_task, items, 500 if tier == 'quick' else 2500)
+    res = accept.run_modules(_task, items, 300 if tier == 'quick' else 2500)
     for m in sorted(res):
         r = res[m]
         if 'crash' in r:
